@@ -540,7 +540,7 @@ func modelShapeAfter(shape []int, specs []SpecJ) []int {
 }
 
 var c02DTs = []DT{dtInt8, dtInt16, dtF32, dtF64, dtC128, dtStr, dtBool}
-var c02Layouts = []string{"contig", "cmraw", "cmconv", "lazyT", "sliced", "stepsliced", "slicedT", "Tsliced", "picked", "cmraw+lazyT", "cmraw+sliced"}
+var c02Layouts = []string{"contig", "cmraw", "cmconv", "lazyT", "sliced", "stepsliced", "slicedT", "Tsliced", "picked", "pickslice", "cmraw+lazyT", "cmraw+sliced"}
 
 func genC02Prog(rt *rapid.T, shape []int, depth int, sweepAxis int) []C02Step {
 	var prog []C02Step
